@@ -29,6 +29,21 @@ for x in %(rest)r:
     channel.send(x)
 %(tail)s
 """
+W_PRODUCE_SLOW_END = """
+for x in %(items)r:
+    channel.send(x)
+channel.gateway.execmodel.sleep(1.0)     # the initiator drops its channel object meanwhile
+"""
+W_HALFCLOSE = """
+got = []
+sub = channel.gateway.newchannel()
+sub.setcallback(got.append)
+channel.send(sub)
+del sub                       # the object with a callback goes away: LAST_MESSAGE, the peer's end becomes send-only
+channel.receive()             # 'sent': the initiator has sent its items on the sub-channel and closed it
+channel.gateway.execmodel.sleep(0.5)
+channel.send(got)
+"""
 W_CONSUME = """
 got = []
 for i in range(%(n)d):
@@ -83,8 +98,30 @@ def gen_items(rng, n=None, big=True):
     items = [rng.choice([i, str(i), (i, None), [i], b"b%d" % i]) for i in range(n)]
     if big and items and rng.random() < 0.15:
         # one payload beyond any plausible small-message threshold (frames of concurrent senders must not interleave)
-        items[rng.randrange(len(items))] = bytes([65 + rng.randrange(26)]) * rng.choice([9000, 70000])
+        items[rng.randrange(len(items))] = ("BIG", 65 + rng.randrange(26), rng.choice([9000, 70000]))
     return items
+
+
+def expand(x):
+    """("BIG", byte, n) stands for n equal bytes (kept symbolic in programs and replays)"""
+    if isinstance(x, (tuple, list)) and len(x) == 3 and x[0] == "BIG":
+        return bytes([x[1]]) * x[2]
+    return x
+
+
+def compact(v):
+    """for examples / replays: long byte strings as a short marker"""
+    if isinstance(v, (bytes, bytearray)) and len(v) > 200:
+        return "<%d bytes %r..>" % (len(v), bytes(v[:4]))
+    if isinstance(v, dict):
+        return {k: compact(x) for k, x in v.items()}
+    if isinstance(v, (list, tuple)):
+        return [compact(x) for x in v]
+    return v
+
+
+def expand_all(items):
+    return [expand(x) for x in items]
 
 
 def gen_conversation(rng, kinds, tag):
@@ -92,7 +129,7 @@ def gen_conversation(rng, kinds, tag):
     c = {"kind": kind, "tag": tag}
     if kind in ("produce", "produce_raise"):
         c["items"] = gen_items(rng)
-        c["consume"] = rng.choice(["receive", "iter", "callback", "callback_late", "callback_mid", "two_receivers", "waitclose_then_receive"])
+        c["consume"] = rng.choice(["receive", "iter", "callback", "callback_late", "callback_mid", "two_receivers", "waitclose_then_receive"] + (["callback_dropped"] if kind == "produce" else []))
     elif kind == "consume":
         c["items"] = gen_items(rng)
     elif kind == "consume_eof":
@@ -102,6 +139,8 @@ def gen_conversation(rng, kinds, tag):
         c["items"] = list(range(rng.randint(1, 4)))
         c["bad"] = rng.choice(c["items"])
         c["keep"] = rng.choice([0, 1])
+    elif kind == "halfclose":
+        c["items"] = gen_items(rng, rng.randint(0, 3), big=False)
     elif kind == "subchannel":
         c["items"] = gen_items(rng, rng.randint(0, 3))
         c["items2"] = gen_items(rng, rng.randint(0, 3))
@@ -109,10 +148,16 @@ def gen_conversation(rng, kinds, tag):
 
 
 def worker_source(c):
+    c = dict(c)
+    for key in ("items", "items2"):
+        if key in c:
+            c[key] = expand_all(c[key])
     k = c["kind"]
     if k in ("produce", "produce_raise") and c.get("consume") == "callback_mid":
         h = len(c["items"]) // 2
         return W_PRODUCE_MID % {"first": c["items"][:h], "rest": c["items"][h:], "tail": ("raise ValueError('boom-%s')" % c["tag"]) if k == "produce_raise" else "pass"}
+    if k == "produce" and c.get("consume") == "callback_dropped":
+        return W_PRODUCE_SLOW_END % {"items": c["items"]}
     if k == "produce":
         return W_PRODUCE % {"items": c["items"]}
     if k == "produce_raise":
@@ -123,6 +168,8 @@ def worker_source(c):
         return W_CONSUME_UNTIL_EOF % {"tag": c["tag"]}
     if k == "callback_raises":
         return W_CALLBACK_RAISES % {"tag": c["tag"], "bad": c["bad"], "keep": c["keep"]}
+    if k == "halfclose":
+        return W_HALFCLOSE
     if k == "subchannel":
         return W_SUBCHANNEL % {"items": c["items"], "items2": c["items2"]}
     raise ValueError(k)
@@ -178,6 +225,11 @@ def run_program(prog, chooser, seed, line_budget=0, cut_w2i=None, remote_backend
                 for x in ch:
                     o["got"].append(x)
                 o["end"] = "EOFError"
+            elif mode == "callback_dropped":
+                END = ("END",)
+                ch.setcallback(lambda x: o["got"].append(x), endmarker=END)
+                o["dropped"] = True
+                return "drop"
             elif mode in ("callback", "callback_late", "callback_mid"):
                 if mode in ("callback_late", "callback_mid"):
                     pr.em_i.sleep(0.5)  # lets items queue up first (virtual time)
@@ -240,11 +292,13 @@ def run_program(prog, chooser, seed, line_budget=0, cut_w2i=None, remote_backend
             if c["consume"] == "two_receivers":
                 o2 = obs["%d:second" % i] = {"kind": "second"}
                 sc.spawn(second_receiver, (ch, o2), name=f"second{i}")
-            consume(c, ch, o)
+            if consume(c, ch, o) == "drop":
+                del ch                     # the Channel object goes away; only the callback registration remains
+                pr.em_i.sleep(3.0)         # the worker's body ends meanwhile
         elif k == "consume":
             for x in c["items"]:
                 try:
-                    ch.send(x)
+                    ch.send(expand(x))
                 except OSError:
                     o["send_refused"] = True   # connection lost meanwhile
                     break
@@ -265,7 +319,7 @@ def run_program(prog, chooser, seed, line_budget=0, cut_w2i=None, remote_backend
         elif k == "consume_eof":
             for x in c["items"]:
                 try:
-                    ch.send(x)
+                    ch.send(expand(x))
                 except OSError:
                     o["send_refused"] = True
                     break
@@ -313,6 +367,34 @@ def run_program(prog, chooser, seed, line_budget=0, cut_w2i=None, remote_backend
                 o["outer"] = "closed"
             except Exception as e:  # noqa
                 o["outer"] = type(e).__name__
+        elif k == "halfclose":
+            try:
+                sub = ch.receive(timeout=20)
+                pr.em_i.sleep(0.5)                       # the peer's LAST_MESSAGE arrives: our end is send-only now
+                o["receiveclosed_before"] = sub._receiveclosed.is_set()
+                o["isclosed_before"] = sub.isclosed()
+                for x in c["items"]:
+                    sub.send(expand(x))                  # sending is still allowed in the send-only state
+                sub.close()
+                o["isclosed_after_close"] = sub.isclosed()
+                try:
+                    sub.send("late")
+                    o["send_after_close"] = "accepted"
+                except OSError:
+                    o["send_after_close"] = "OSError"
+                try:
+                    sub.receive(timeout=0.01)
+                    o["receive_after_close"] = "item"
+                except EOFError:
+                    o["receive_after_close"] = "EOFError"
+                except Exception as e:  # noqa
+                    o["receive_after_close"] = type(e).__name__
+                ch.send("sent")
+                o["peer_got"] = ch.receive(timeout=20)
+                ch.waitclose(timeout=20)
+                o["end"] = "closed"
+            except Exception as e:  # noqa
+                o["end"] = type(e).__name__ + ":" + str(e)[:60]
         elif k == "subchannel":
             try:
                 sub = ch.receive(timeout=20)
@@ -393,6 +475,7 @@ def run_program(prog, chooser, seed, line_budget=0, cut_w2i=None, remote_backend
 
 
 def canon_item(x):
+    x = expand(x)
     if isinstance(x, (bytes, bytearray)) and len(x) > 200:
         return "bytes:%d:%r" % (len(x), bytes(x[:4]))
     return repr(x)
@@ -421,6 +504,14 @@ def check_conversation(ck, prefix, c, o, out, ex, lossy=False):
                 ck.fail(prefix + "remote-error-not-delivered-exactly-once:" + str(ends), ex)
             return
         mode = c["consume"]
+        if mode == "callback_dropped":
+            END = ("END",)
+            items = [x for x in got if x != END]
+            if list(map(canon_item, items)) != list(map(canon_item, want)):
+                ck.fail(prefix + "callback-items-differ:callback_dropped", ex)
+            if got.count(END) != 1 or got[-1:] != [END]:
+                ck.fail(prefix + "endmarker-never-delivered-after-channel-object-dropped", ex)
+            return
         if mode in ("callback", "callback_late", "callback_mid"):
             END = ("END",)
             items = [x for x in got if x != END]
@@ -452,7 +543,8 @@ def check_conversation(ck, prefix, c, o, out, ex, lossy=False):
             if mode != "iter" and o.get("after") != "EOFError":
                 ck.fail(prefix + "after-remote-error-not-EOFError:" + str(o.get("after")), ex)
     elif k == "consume":
-        if o.get("summary") != ("summary", c["items"]) and list(o.get("summary", ())) != ["summary", c["items"]]:
+        sm = o.get("summary")
+        if not (isinstance(sm, (tuple, list)) and len(sm) == 2 and sm[0] == "summary" and list(map(canon_item, sm[1])) == list(map(canon_item, c["items"]))):
             ck.fail(prefix + "worker-did-not-receive-what-was-sent", ex)
         if o.get("end") != "closed" or o.get("send_after_close") != "OSError":
             ck.fail(prefix + f"after-exec-end:{o.get('end')}:{o.get('send_after_close')}", ex)
@@ -477,6 +569,14 @@ def check_conversation(ck, prefix, c, o, out, ex, lossy=False):
             own = [n[2] for n in out["worker_notes"] if n[0] == c["tag"] and n[1] == "own"]
             if own != ["RemoteError"]:
                 ck.fail(prefix + "callback-error-failing-side-not-closed-with-RemoteError:" + str(own), ex)
+    elif k == "halfclose":
+        if o.get("end") != "closed":
+            ck.fail(prefix + "halfclose-conversation-failed:" + str(o.get("end")), ex)
+            return
+        if o.get("isclosed_after_close") is not True or o.get("send_after_close") != "OSError" or o.get("receive_after_close") != "EOFError":
+            ck.fail(prefix + "close-from-send-only-state-incomplete:%s:%s:%s" % (o.get("isclosed_after_close"), o.get("send_after_close"), o.get("receive_after_close")), ex)
+        if list(map(canon_item, o.get("peer_got") or [])) != list(map(canon_item, c["items"])):
+            ck.fail(prefix + "items-sent-in-send-only-state-lost", ex)
     elif k == "subchannel":
         if o.get("end") != "closed" or not o.get("sub_is_channel"):
             ck.fail(prefix + "subchannel-conversation-failed:" + str(o.get("end")), ex)
@@ -487,7 +587,7 @@ def check_conversation(ck, prefix, c, o, out, ex, lossy=False):
             ck.fail(prefix + "channel-id-parity-wrong", ex)
 
 
-ALL_KINDS = ["produce", "produce_raise", "consume", "consume_eof", "callback_raises", "subchannel"]
+ALL_KINDS = ["produce", "produce_raise", "consume", "consume_eof", "callback_raises", "subchannel", "halfclose"]
 
 
 def run_property(prop, tier, seed, replay, kinds_weight, prefix_filter, rule, assumptions, nprog_quick=140, extra=None):
@@ -543,14 +643,14 @@ def run_property(prop, tier, seed, replay, kinds_weight, prefix_filter, rule, as
         for c in prog:
             ck.count("conv_" + c["kind"])
         if nruns % 97 == 1:
-            ck.sample({**exb, "obs": {str(k): v for k, v in out["obs"].items()}})
+            ck.sample({**exb, "obs": compact({str(k): v for k, v in out["obs"].items()})})
         if out["result"] != "stop":
             ck.broke("correspondence", "pair-run-" + str(out["result"]), {**exb, "thread_errors": out["thread_errors"]})
             continue
         sub = _Sub(ck, prefix_filter)
         for i, c in enumerate(prog):
             o = out["obs"].get(i)
-            ex = {**exb, "index": i, "obs": {str(k): v for k, v in out["obs"].items()}, "worker_notes": out["worker_notes"][:20]}
+            ex = {**exb, "index": i, "obs": compact({str(k): v for k, v in out["obs"].items()}), "worker_notes": out["worker_notes"][:20]}
             if o is None or "id" not in o:
                 sub.fail("conversation-did-not-start", ex)
                 continue
